@@ -57,11 +57,57 @@ def _query_env(ctx, data_key):
     return _Q
 
 
+_BUILTIN_OF = {"simplify_string": "simplify_window_titles"}
+
+
+def judge_builtins(mons):
+    """The same oracles once more, one level up: around the BUILT-IN of the query language that stands for the monitored
+    transform (registry entry: recorder -> type check -> wrapper -> transform). What a query gets for `f(a, b)` must be
+    what the property says about f(a, b), whatever the wrapper in between does. Violations are filed with the monitor."""
+    import copy
+    import aw_query.functions as F
+    done = _Q.setdefault("builtin_judges", {})
+    for n, m in mons.items():
+        q = _BUILTIN_OF.get(n, n)
+        if q not in F.functions or (q, id(m)) in done:
+            continue
+        inner = F.functions[q]
+
+        def judged(datastore, namespace, *args, _inner=inner, _m=m, _q=q, **kwargs):
+            try:
+                old = copy.deepcopy(args)
+                dom = bool(_m.pre(*old)) if _m.pre else True
+            except Exception:  # noqa: BLE001
+                old, dom = None, False
+            exc = result = None
+            try:
+                result = _inner(datastore, namespace, *args, **kwargs)
+            except Exception as e:  # noqa: BLE001 - re-raised below
+                exc = e
+            if dom and old is not None and not kwargs:
+                _Q["builtin_judged"] = _Q.get("builtin_judged", 0) + 1
+                try:
+                    for kind, detail in (_m.post(old, {}, result, exc, args, {}) or []):
+                        if len(_m.violations) < 20:
+                            _m.violations.append((f"built-in-{_q}:{kind}", detail, (old, {})))
+                except Exception as e:  # noqa: BLE001
+                    _m.violations.append(("oracle-error", f"{type(e).__name__}: {e}", (old, {})))
+            if exc is not None:
+                raise exc
+            return result
+
+        judged.__wrapped__ = inner
+        judged.__name__ = getattr(inner, "__name__", q)
+        F.functions[q] = judged
+        done[(q, id(m))] = inner
+
+
 def run_query_case(case, ctx, mons):
     """Runs one query text with the monitors installed; returns the violations they observed."""
     import aw_query
     from ..gen import mk_dt
     env = _query_env(ctx, case["data_key"])
+    judge_builtins(mons)
     for m in mons.values():
         m.violations = []
     before = {n: (m.evaluations, m.out_of_domain) for n, m in mons.items()}
@@ -85,6 +131,8 @@ def run_query_case(case, ctx, mons):
                 continue
             viols.append((f"in-query:{kind}", f"{detail} :: query={case['text']!r:.300}"))
         m.violations = []
+    if _Q.get("builtin_judged"):
+        ctx.count("query_workload.judged_at_the_built-in", _Q.pop("builtin_judged"))
     return viols, dict(sig=("query", tuple(sorted(reached)), outcome), nontrivial=bool(reached))
 
 
